@@ -206,6 +206,9 @@ class AbstractBlob:
     def save_verified_blob(self, verified_bytes: bytes):
         if self.verified.is_set():
             return
+        # the bytes hash to blob_hash, so their length is the blob's length, whatever was known, announced or
+        # forgotten (client.download_blob forgets a length it learnt from a request that did not succeed)
+        self.length = len(verified_bytes)
 
         def update_events(_):
             self.verified.set()
